@@ -336,6 +336,7 @@ type FuncGen struct {
 	maxTrace  int
 	orParts   map[string][]string // merged path condition -> its alternatives
 	andParent map[string]string   // refined path condition -> the one it refines
+	noAssume  bool                // true while exit obligations are emitted
 	noFacts   int                 // >0: terms mention bound variables, no typing facts may be emitted
 	axiomHeap map[string]string   // non-nil while an axiom is evaluated: heap key -> array sort (arrays are bound variables)
 }
@@ -616,8 +617,10 @@ func (g *FuncGen) oblige(st *State, kind, label string, tags []string, goal stri
 		o.Pos = fmt.Sprintf("%s:%d", strings.TrimPrefix(p.Filename, "/repo/"), p.Line)
 	}
 	g.obls = append(g.obls, o)
-	// assert-then-assume
-	g.assume(st, goal)
+	// assert-then-assume (postconditions and frames at the exit are independent of each other: not assumed)
+	if !g.noAssume {
+		g.assume(st, goal)
+	}
 }
 
 func (g *FuncGen) exprText(e ast.Expr) string {
